@@ -29,6 +29,8 @@ def HasHeads (P : Program) : Prop := ∃ h, P.g.isOneofHead h = true
 structure OneP (P : Program) : Prop where
   noRecur  : ∀ n kw i k v, P.body n kw i k = .ret v → v.isRecur = false ∧ v.isExc = false
   noRecurD : ∀ n kw, (P.dflt n kw).isRecur = false ∧ (P.dflt n kw).isExc = false
+  /-- every `get_default` returns (a failing default is outside this fragment; the engine model covers it) -/
+  dfltOk   : ∀ n, P.dfltRaise n = none
   /-- decision nodes are ordinary nodes (the builder refers to them by their class) -/
   decPlain : ∀ e ∈ P.g.edges, e.isSwitch = true → P.g.isSwitch e.u = false
   /-- the edges into a synthetic switch node are its decision edge and its case edges -/
@@ -57,12 +59,13 @@ structure SwP (P : Program) : Prop extends OneP P where
 theorem oneP_of_check {P : Program} (hc : onePB P = true)
     (headsIn : ∀ h, P.g.isOneofHead h = true → h ∈ P.g.nodes)
     (hr : ∀ n kw i k v, P.body n kw i k = .ret v → v.isRecur = false ∧ v.isExc = false)
-    (hrd : ∀ n kw, (P.dflt n kw).isRecur = false ∧ (P.dflt n kw).isExc = false) : OneP P := by
+    (hrd : ∀ n kw, (P.dflt n kw).isRecur = false ∧ (P.dflt n kw).isExc = false)
+    (hdo : ∀ n, P.dfltRaise n = none) : OneP P := by
   unfold onePB at hc
   simp only [Bool.and_eq_true, List.all_eq_true, Bool.or_eq_true, Bool.not_eq_true', decide_eq_true_eq, bne_iff_ne, ne_eq,
     List.contains_iff_mem, beq_iff_eq] at hc
   obtain ⟨⟨⟨⟨⟨⟨⟨⟨⟨⟨⟨h1, h2⟩, h3⟩, h4⟩, h5⟩, h6⟩, h7⟩, h8⟩, h9⟩, h10⟩, h11⟩, _⟩ := hc
-  refine { noRecur := hr, noRecurD := hrd, decPlain := ?_, swEdges := ?_, decUnique := ?_, inOut := h4, inIn := h5, outIn := h6,
+  refine { noRecur := hr, noRecurD := hrd, dfltOk := hdo, decPlain := ?_, swEdges := ?_, decUnique := ?_, inOut := h4, inIn := h5, outIn := h6,
            headPlain := ?_, headEdges := ?_, inRoot := h9, kwEdges := ?_, candReach := ?_ }
   · intro e he hs
     rcases h1 e he with h | h
@@ -1063,7 +1066,7 @@ theorem safe_nodeAfterBody {P : Program} {c : Ctx} {s : St} {below : List Frame}
   have hdf : Retry.decide (P.cfg n) k (P.body n kw inv k) = .done .default →
       Good P val (nodeDefault c s obs d n below kw) := by
     intro hdd
-    simp only [nodeDefault]
+    rw [nodeDefault_of_none _ _ _ _ _ _ _ (by rw [x.cP]; exact x.sw.dfltOk _)]
     rw [x.cP]
     have hfin := ha.final _ hdd
     refine safe_nodeSuccess x _ (ho.snoc (o := .dflt n kw) ⟨ha.kw_eq, ha.preds, hfin⟩) d n _ hd hns hdm ?_ (x.sw.noRecurD _ _)
